@@ -23,17 +23,52 @@ def gen_projects(n, seed, tier):
     o = {"max_dirs": 1, "max_sources": 3, "min_targets": 2, "max_targets": 4 if tier == "quick" else 6,
          "p_csum": 40, "p_always": 0, "p_ifc": 0, "p_failflag": 0, "p_default": 25}
 
-    @settings(max_examples=n * 3, database=None, deadline=None, suppress_health_check=list(HealthCheck),
+    @settings(max_examples=n * 12, database=None, deadline=None, suppress_health_check=list(HealthCheck),
               phases=[Phase.generate])
     @hseed(seed)
     @given(gen.projects(o), st.integers(0, 1), st.integers(0, 1))
     def collect(proj, log, two):
         key = json.dumps(proj, sort_keys=True)
-        if len(got) < n and all(g[3] != key for g in got):
+        if len(got) < n * 4 and all(g[3] != key for g in got):
             tops = proj["targets"][-2:] if two else proj["targets"][-1:]
             got.append((proj, log, tops, key))
     collect()
-    return [(g[0], g[1], g[2]) for g in got]
+
+    # the handful of projects a quick run enumerates must between them show the shapes that matter for recovery:
+    # pick greedily by new features rather than taking the first n
+    def features(g):
+        proj = g[0]
+        fs = set()
+        for dof, spec in proj["dofiles"].items():
+            sub = "/" in dof
+            outs = [stt[1] for stt in spec["body"] if stt[0] == "out"]
+            for o_ in outs:
+                fs.add(("subdir-" if sub else "root-") + o_)
+            if any(stt[0] == "stamp" for stt in spec["body"]):
+                fs.add("checksummed" + ("-subdir" if sub else ""))
+            if "default" in dof:
+                fs.add("default-rule")
+            if any(stt[0] == "dep" and any(q in proj["targets"] for q in stt[2]) for stt in spec["body"]):
+                fs.add("nested")
+        if len(g[2]) > 1:
+            fs.add("two-requested")
+        return fs
+    return [(g[0], g[1], g[2]) for g in pick_diverse(got, n, features)]
+
+
+def pick_diverse(cands, n, features):
+    chosen, seen = [], set()
+    pool = list(cands)
+    while pool and len(chosen) < n:
+        best = max(pool, key=lambda g: (len(features(g) - seen), -pool.index(g)))
+        pool.remove(best)
+        chosen.append(best)
+        seen |= features(best)
+    return chosen
+
+
+def _unused():
+    return None
 
 
 def shim_env(disk, mode_env):
@@ -257,16 +292,17 @@ def crash_job(job):
             if bad:
                 symptom = symptom or "stale-after-recovery"
                 problems.append("after recovery these are not from-scratch: %s" % bad)
-            stray = disk.stray_files()
-            if stray:
-                symptom = symptom or "tmp-left"
-                problems.append("temporary files survive the recovery: %s" % stray)
+            # (a *.redo.tmp of a target the recovery found clean may still lie around here: redo removes a stale
+            # temp file when it next builds that target, which the statement does not forbid -- checked after the
+            # rebuild below, when every target has been built again)
+            stray_after_recovery = disk.stray_files()
         if symptom is None:
             # --- targets built afterwards keep reacting to source changes ---
             for s in job["project"]["sources"]:
                 disk.write(s, P.source_content(s, 2))
             e2 = runner.run_cmd(disk, ["redo-ifchange"] + job["tops"], env_extra=env, timeout=40)
             t2 = e2.text()
+            ex_e2 = set(hist.parse_trace(disk.take_trace())[0])
             m2 = model_for(job, 2)
             memo = {}
             bad = [p for p in sorted(clos) if m2.from_scratch(p, memo) is not M.FAIL
@@ -280,6 +316,9 @@ def crash_job(job):
             elif "you modified it" in t2:
                 symptom = "override-warning"
                 problems.append("later build claims the user modified a target")
+            elif [x for x in disk.stray_files() if x.endswith(".redo.tmp") and x[:-len(".redo.tmp")] in ex_e2]:
+                symptom = "tmp-left"
+                problems.append("temporary files of targets that were built again survive: %s" % disk.stray_files())
             else:
                 q = runner.run_cmd(disk, ["redo-ood"], env_extra=env)
                 listed = [l for l in q.out.decode("utf-8", "replace").split("\n") if l]
